@@ -70,9 +70,10 @@ Proof.
   induction items as [|[k x] items IH]; intros acc st cont st' Hf Hnd H; cbn [content_of] in H.
   - injection H as <- <-. exists []. split; [reflexivity|]. cbn. rewrite app_nil_r. reflexivity.
   - inversion Hf as [|? ? [Hp Hk] Hf']; subst. cbn [fst snd] in Hp, Hk. rewrite Hp in H.
-    destruct (f x st) as [[j st1]|] eqn:Ef; [|discriminate]. cbn [bind] in H.
     destruct (k_val k) as [sc|] eqn:Ek; [|congruence].
     cbn [map fst] in Hnd. unfold ktext in Hnd at 1. rewrite Ek in Hnd.
+    rewrite (nodup_no_collision k sc acc _ Ek Hnd) in H.     (* distinct spellings: the collision branch is dead *)
+    destruct (f x st) as [[j st1]|] eqn:Ef; [|discriminate]. cbn [bind] in H.
     rewrite jset_fresh in H.
     2:{ apply vl_dget_none_notin. intro Hin. apply NoDup_remove_2 in Hnd. apply Hnd. apply in_or_app. left. exact Hin. }
     destruct (IH (acc ++ [(key_text sc, j)]) st1 cont st' Hf') as [js [Hs Hc]].
